@@ -102,13 +102,13 @@ type c11Segment struct {
 }
 
 type c11Exec struct {
-	id       int
-	w        *c11World
-	timeout  time.Duration
-	script   []c11Segment
-	exitCode int64
-	hasInput bool
-	output   bool
+	id        int
+	w         *c11World
+	timeout   time.Duration
+	script    []c11Segment
+	exitCode  int64
+	hasInput  bool
+	output    bool
 	mayCancel bool
 
 	action *remoteexecution.Action
